@@ -65,13 +65,18 @@ def run(rep, tier, seed):
             for a in beh:
                 if a == "A":
                     ops.append({"op": "write", "line": [ord(c) for c in pick()]})
-                elif a == "C":
+                elif a in ("C", "T"):
+                    # (T: the append is torn but the same history object goes on: no reopen follows)
                     ops.append({"op": "crash", "line": [ord(c) for c in pick()], "k": 0})
                 else:
                     ops.append({"op": "reopen"})
             # appends after the last reopen must be durable again: write two more and reopen
             ops += [{"op": "write", "line": [ord(c) for c in pick()]}, {"op": "write", "line": [ord(c) for c in pick()]}, {"op": "reopen"}]
-            sweep = "C" in beh
+            sweep = ("C" in beh or "T" in beh) and sum(1 for a in beh if a in "CT") == 1
+            if not sweep:
+                for o in ops:
+                    if o["op"] == "crash":
+                        o["k"] = rng.randint(1, 60)     # several interrupted appends in one behaviour: seeded offsets
             cases.append({"id": "b%d.%d" % (bi, k), "ops": ops, "sweep": sweep, "stride": (2 if tier == "quick" else 1)})
     # (b) seeded random histories: blank lines, consecutive duplicates, long lines (> 64 KiB), crashes
     nrand = 600 if tier == "quick" else 3000
@@ -89,7 +94,8 @@ def run(rep, tier, seed):
                 ops.append({"op": "write", "line": [ord(c) for c in u], "rep": rng.choice([7000, 20000, 70000]) // len(u) + 1})
             elif x < 0.4:
                 ops.append({"op": "crash", "line": [ord(c) for c in pick()], "k": rng.randint(0, 90)})
-                ops.append({"op": "reopen"})
+                if rng.random() < 0.5:
+                    ops.append({"op": "reopen"})
             elif x < 0.5:
                 ops.append({"op": "reopen"})
             else:
@@ -142,7 +148,7 @@ def run(rep, tier, seed):
         rawc = {k: v for k, v in raw.items() if k not in ("stack", "entries", "trim")} if isinstance(raw, dict) else {}
         rep.violation("history file: %s rejected (%s)" % (json.dumps(ln)[:300], viol),
                       {"kind": "histfile", "case": cs, "rejected_line": ln, "raw_event": rawc})
-    rep.rule = ("all %d behaviours of the bounded model (words over append / crash / reopen, <= 4 appends) executed on real files, each crash swept "
+    rep.rule = ("all %d behaviours of the bounded model (words over append / crash / torn append with the object kept open / reopen, <= 4 appends) executed on real files, each crash swept "
                 "over the byte offsets of the interrupted append (quick: every 7th offset plus the first and last four; thorough: every offset), "
                 "followed by two more appends and a reopen; plus seeded random histories with blank lines, duplicates, 7 kB-70 kB lines; "
                 "non-trivial = distinct (offset, record length) pairs at which an append was actually torn" % len(behs))
